@@ -120,7 +120,9 @@ def c08_cell(rng: random.Random, T2: int, T3: int):
     persample = three and rng.random() < 0.5
     if persample:
         reduction, den = "sum", 1
+    hp["form"] = {k: "t0" for k in hp if (k.startswith("lr_") or k.startswith("tc_")) and rng.random() < 0.3}
     return {"variant": variant, "mode": mode, "sp": sp, "sn": sn, "e": dict(e, a=a), "hp": hp, "T": T,
+            "via": rng.choice(["ctor", "override"]),
             "delays": delays, "B": B, "reduction": reduction, "den": den, "conn": conn, "three": three,
             "persample": persample}
 
@@ -149,7 +151,8 @@ def c18_cell(rng: random.Random, T2: int, T3: int):
     if persample:
         reduction, den = "sum", 1
     e = {"a": a, "xf": 1, "yf": 1, "xs": 0, "ys": 0, "z": 0, "k": 0, "g": 0}
-    return {"variant": variant, "rule": rule, "splus": splus, "sminus": sminus, "e": e, "hp": hp, "dt": dt,
+    hp["form"] = {k: "t0" for k in ("lr_pos", "lr_neg", "tc_pos", "tc_neg") if rng.random() < 0.4}
+    return {"variant": variant, "rule": rule, "via": rng.choice(["ctor", "override"]), "splus": splus, "sminus": sminus, "e": e, "hp": hp, "dt": dt,
             "T": T3 if three else T2, "delays": delays, "B": B, "reduction": reduction, "den": den,
             "conn": random_conn(rng), "three": three, "persample": persample}
 
@@ -188,7 +191,7 @@ def drive(family: str, c: dict, rng: random.Random | None = None, script: dict |
     dt = LN2 if family == "c08" else c["dt"]
     per_step = C18_DT if family == "c18" else 1
     hdr = {"rule": c["variant"], "hp": c["hp"], "conn": conn, "dt": dt, "B": B, "reduction": c["reduction"],
-           "dmax": 2 if c["delays"] else None, "delay": 0}
+           "dmax": 2 if c["delays"] else None, "delay": 0, "via": c.get("via", "ctor")}
     run = Run(hdr)
     dshape = tuple(run.conn.weight.shape)
     inshape, outshape = tuple(run.conn.inshape), tuple(run.conn.outshape)
@@ -295,7 +298,14 @@ def validate(chk: Check, module: str, traces, pid_site: str, shards: int):
                        "delayed": meta.get("delayed"), "delays": meta.get("delays")},
                       {"meta": meta, "cfg": traces[r["trace"]]["hdr"]["cfg"], "line": r["line"], "event": r["event"],
                        "diag": r["diag"], "trace": traces[r["trace"]]["ev"][:r["line"]]})
+    validate.rejected = {r["trace"] for r in rej}
     return len(rej)
+
+
+def accepted_trace(traces):
+    """A trace of the last validated batch that TLC accepted (for the canary)."""
+    bad = getattr(validate, "rejected", set())
+    return next((t for i, t in enumerate(traces) if i not in bad), None)
 
 
 def canary(chk: Check, module: str, trace):
